@@ -106,6 +106,26 @@ Theorem C09_site_generateAPIKeyClients_fixed_deterministic :
 Proof. exact site_generateAPIKeyClients_fixed_deterministic. Qed.
 Print Assumptions C09_site_generateAPIKeyClients_fixed_deterministic.
 
+(* the hypothesis of C09_sort_perm_invariant is necessary: a comparator that does not tell two keys
+   apart (a normalised key: lower-cased, trimmed ...) leaves their order to the iteration order *)
+Theorem C09_sort_needs_distinct_keys :
+  forall (A : Type) (key : A -> string) (x y : A), key x = key y -> x <> y -> isort key [x; y] <> isort key [y; x].
+Proof. exact @sort_needs_distinct_keys. Qed.
+Print Assumptions C09_sort_needs_distinct_keys.
+
+Theorem C09_site_generateAPIKeyClients_normalised_refuted :
+  forall norm hash (x y : string * string), norm (fst x) = norm (fst y) -> fst x <> fst y ->
+    site_generateAPIKeyClients_normalised_out norm hash [x; y] <>
+    site_generateAPIKeyClients_normalised_out norm hash [y; x].
+Proof. exact site_generateAPIKeyClients_normalised_refuted. Qed.
+Print Assumptions C09_site_generateAPIKeyClients_normalised_refuted.
+
+Theorem C09_site_generateAPIKeyClients_normalised_deterministic :
+  forall norm hash l1 l2, Permutation l1 l2 -> NoDup (map (fun kv => norm (fst kv)) l1) ->
+    site_generateAPIKeyClients_normalised_out norm hash l1 = site_generateAPIKeyClients_normalised_out norm hash l2.
+Proof. exact site_generateAPIKeyClients_normalised_deterministic. Qed.
+Print Assumptions C09_site_generateAPIKeyClients_normalised_deterministic.
+
 (* F13, part 2: range over policiesCfg.APIKey.ClientMap -- as soon as two scopes carry an API-key policy *)
 Theorem C09_site_GenerateVirtualServerConfig_refuted :
   forall (C M : Type) (gen : string -> C -> M) (mkey : M -> string) (l : list (string * C)) x y,
@@ -233,6 +253,34 @@ Theorem C09_spec_ok_sound :
 Proof. exact spec_ok_sound. Qed.
 Print Assumptions C09_spec_ok_sound.
 
+(* ---------------------------------------------------------------- history: same inputs, whatever came before *)
+
+(* a generator that leaves the mutable part of its inputs alone renders an input as a fresh process does *)
+Theorem C09_history_independent :
+  forall (S I O : Type) (step : S -> I -> S * O), (forall s i, fst (step s i) = s) ->
+    forall h s i, snd (step (run_history step s h) i) = snd (step s i).
+Proof. exact @history_independent. Qed.
+Print Assumptions C09_history_independent.
+
+(* the mergeable-Ingress generator (minion deep-copied before annotations are merged / filtered) *)
+Theorem C09_render_history_deepcopy :
+  forall allowed deny masters m minion last,
+    render_history false allowed deny (masters ++ [m]) minion last = effective_minion allowed deny m minion.
+Proof. exact render_history_deepcopy. Qed.
+Print Assumptions C09_render_history_deepcopy.
+
+(* ... and what happens when the stored minion is edited in place *)
+Theorem C09_render_history_inplace_refuted :
+  exists allowed deny m1 m2 minion,
+    render_history true allowed deny [m1; m2] minion [] <> render_history true allowed deny [m2] minion [].
+Proof. exact render_history_inplace_refuted. Qed.
+Print Assumptions C09_render_history_inplace_refuted.
+
+Theorem C09_history_ok_sound :
+  forall a b n, history_ok a b n = true <-> a = b /\ n = 0.
+Proof. exact history_ok_sound. Qed.
+Print Assumptions C09_history_ok_sound.
+
 (* ---------------------------------------------------------------- the hypotheses are met / concrete witnesses *)
 
 Definition secret3 : smap string := of_list [("client-b", "k2"); ("client-a", "k1"); ("client-c", "k3")].
@@ -273,3 +321,10 @@ Proof. vm_compute. reflexivity. Qed.
 Example spec_ok_rejects_a_changed_second_rendering :
   spec_ok [([("f", "h1")], true); ([("f", "h1")], false); ([("f", "h2")], true)] = false.
 Proof. vm_compute. reflexivity. Qed.
+
+Example case_folding_comparator_is_not_total :
+  site_generateAPIKeyClients_normalised_out (fun k => if String.eqb k "Mobile-App" then "mobile-app" else k) (fun v => v)
+    [("mobile-app", "h1"); ("Mobile-App", "h2")] <>
+  site_generateAPIKeyClients_normalised_out (fun k => if String.eqb k "Mobile-App" then "mobile-app" else k) (fun v => v)
+    [("Mobile-App", "h2"); ("mobile-app", "h1")].
+Proof. vm_compute. discriminate. Qed.
